@@ -432,9 +432,20 @@ def check_disable_blocks(mod, col: Collector, maxlen: int) -> int:
             return True
         return False
 
+    def refused(action) -> bool:
+        try:
+            action()
+        except Exception:
+            return True
+        return False
+
     def run(seq) -> Optional[Dict[str, Any]]:
         # interpret the sequence with real context managers; 'X' = leave the innermost block by exception
         stack = []
+        # a message that lives through the whole sequence and array views of it taken after every step: whether a store is
+        # checked depends on where execution is NOW, not on where the object or the view was created
+        pm = mod.MDF_VAL3()
+        views = [("before", pm.a_int8, pm.a_float, pm.sa)]
         try:
             for k, op in enumerate(seq):
                 if op == "E":
@@ -459,6 +470,21 @@ def check_disable_blocks(mod, col: Collector, maxlen: int) -> int:
                 on = validation_is_on()
                 if on != (len(stack) == 0):
                     return {"kind": "validation-state", "sequence": "".join(seq), "after_op": k, "open_blocks": len(stack), "validation_on": on}
+                views.append((f"after op {k}", pm.a_int8, pm.a_float, pm.sa))
+                want_on = len(stack) == 0
+                routes = [("scalar of the long-lived message", lambda: setattr(pm, "f_int8", 1000)),
+                          ("whole array of the long-lived message", lambda: setattr(pm, "a_int8", [1, 300, 3]))]
+                for when, vi, vf, vs in views:
+                    routes.append((f"int array view taken {when}: element", lambda vi=vi: vi.__setitem__(1, 300)))
+                    routes.append((f"int array view taken {when}: slice", lambda vi=vi: vi.__setitem__(slice(0, 2), [1, 300])))
+                    routes.append((f"float array view taken {when}: element", lambda vf=vf: vf.__setitem__(2, 1e39)))
+                    routes.append((f"struct array view taken {when}: nested field", lambda vs=vs: setattr(vs[1].inner, "x", 2 ** 20)))
+                for what, act in routes:
+                    # outside every block the store must be refused; inside a block the statement does not say what an
+                    # old view does, so only the missing refusal counts
+                    if want_on and not refused(act):
+                        return {"kind": "validation-state", "sequence": "".join(seq), "after_op": k, "open_blocks": len(stack), "validation_on": not want_on,
+                                "route": what}
         finally:
             while stack:
                 try:
